@@ -65,7 +65,7 @@ def prune_flag_independence(target):
     return check
 
 
-def determinism(functions):
+def determinism(functions, allow=()):
     """the cone reads nothing but its arguments: no random/time/id/hash/global/set-iteration/os/input"""
     def check(mods):
         bad = []
@@ -76,7 +76,7 @@ def determinism(functions):
             for x in ast.walk(fn):
                 if isinstance(x, (ast.Global, ast.Nonlocal)):
                     bad.append(f'{qual}: global/nonlocal at line {x.lineno}')
-                if isinstance(x, ast.Name) and x.id in ('random', 'time', 'id', 'hash', 'os', 'input', 'open', 'globals', 'vars'):
+                if isinstance(x, ast.Name) and x.id in ('random', 'time', 'id', 'hash', 'os', 'input', 'open', 'globals', 'vars') and x.id not in allow:
                     bad.append(f'{qual}: use of {x.id} at line {x.lineno}')
                 if isinstance(x, ast.For) and isinstance(x.iter, ast.Call) and getattr(x.iter.func, 'id', '') in ('set', 'frozenset'):
                     bad.append(f'{qual}: iteration over a set at line {x.lineno}')
@@ -102,4 +102,36 @@ def no_self_call(mod, fn):
             if isinstance(x, ast.Call) and isinstance(x.func, ast.Name) and x.func.id == fn:
                 return False, f'{fn} calls itself at line {x.lineno}: recursion depth grows with the graph'
         return True, f'{fn} contains no call to itself'
+    return check
+
+
+def seeded_randomness(mod, fn, callees):
+    """reproducibility: random.seed(seed) is executed before any draw, every source of randomness is the random module,
+    and nothing else (time, os, global state) is read"""
+    def check(mods):
+        f = _fn(mods, mod, fn)
+        if f is None:
+            return None, f'{mod}.{fn} not found'
+        first_draw = None
+        seed_line = None
+        for x in ast.walk(f):
+            if isinstance(x, ast.Call) and isinstance(x.func, ast.Attribute) and isinstance(x.func.value, ast.Name) and x.func.value.id == 'random':
+                if x.func.attr == 'seed':
+                    if not (x.args and isinstance(x.args[0], ast.Name) and x.args[0].id == 'seed'):
+                        return False, f'random.seed is not called with the seed parameter (line {x.lineno})'
+                    seed_line = x.lineno if seed_line is None else min(seed_line, x.lineno)
+                else:
+                    first_draw = x.lineno if first_draw is None else min(first_draw, x.lineno)
+            if isinstance(x, ast.Call) and isinstance(x.func, ast.Name) and x.func.id in callees:
+                first_draw = x.lineno if first_draw is None else min(first_draw, x.lineno)
+        if seed_line is None:
+            return False, 'random.seed(seed) is never called'
+        if first_draw is not None and first_draw <= seed_line:
+            return False, f'a random draw at line {first_draw} precedes random.seed at line {seed_line}'
+        # seed must be at top level of the function body (not under a condition or loop)
+        top = [st for st in f.body if isinstance(st, ast.Expr) and isinstance(st.value, ast.Call) and getattr(st.value.func, 'attr', '') == 'seed']
+        if not top:
+            return False, 'random.seed(seed) is not an unconditional top-level statement'
+        ok, detail = determinism([(mod, fn)] + [(mod, c) for c in callees], allow=('random',))(mods)
+        return ok, f'random.seed(seed) at line {seed_line} precedes the first draw (line {first_draw}); ' + detail
     return check
